@@ -37,20 +37,31 @@
 #include <QSslKey>
 #include <QSslSocket>
 #include <QTcpServer>
+#include <QTimer>
 #include <QUuid>
 #include <QXmlStreamReader>
 #include <iostream>
+#include <netinet/in.h>
+#include <netinet/tcp.h>
+#include <sys/socket.h>
 #include <memory>
 #include <string>
 
-static QJsonArray *g_journal = nullptr;
+static std::vector<QJsonObject> *g_journal = nullptr;
+struct SigRec {
+    int t, c;
+    QString name;
+};
+static std::vector<SigRec> g_signals;
 static int g_seq = 0;
 static QByteArray g_certPem, g_keyPem;
 
 static void J(QJsonObject o)
 {
-    o["t"] = g_seq++;
-    g_journal->append(o);
+    o["t"] = g_seq;
+    if (o["ev"].toString() == u"cli_sig") g_signals.push_back({ g_seq, o["c"].toInt(), o["name"].toString() });
+    g_seq++;
+    g_journal->push_back(std::move(o));
 }
 
 // ---------------------------------------------------------------------------------------- server side
@@ -83,6 +94,7 @@ struct Conn {
     QString lastId;
     // server-side XEP-0198 counters (the reference for C09)
     bool smOn = false;
+    bool autoAck = false;  // answer the client's <r/> with the server's real count
     int smInbound = 0;   // stanzas received from the client since <enable/>/<resume/>
     int streamNo = 0;
 
@@ -168,6 +180,11 @@ struct Conn {
         J(o);
         queue << o;
         if (!el.attribute(u"id"_s).isEmpty() && tag == u"iq") lastId = el.attribute(u"id"_s);
+        if (autoAck && smOn && tag == u"r" && ns == u"urn:xmpp:sm:3") {
+            const QByteArray a = "<a xmlns='urn:xmpp:sm:3' h='" + QByteArray::number(smInbound) + "'/>";
+            J({ { "ev", "srv_tx" }, { "c", clientIndex }, { "conn", connIndex }, { "xml", QString::fromUtf8(a) }, { "auto", true } });
+            send(a);
+        }
     }
 
     void send(const QByteArray &data)
@@ -191,7 +208,9 @@ struct Cli {
     int signalCount = 0;
     QMap<QString, QBuffer *> recvBuffers;
     QMap<QString, QXmppTransferJob *> jobs;
-    Conn *current() { return conns.isEmpty() ? nullptr : conns.last(); }
+    int sigMark = 0;     // journal position of the last connect / cut / disconnect: wait_signal only looks at later signals
+    int expectConn = 0;  // index of the connection the script currently talks about (set by 'connect')
+    Conn *current() { return conns.size() > expectConn ? conns.last() : nullptr; }
 };
 
 static QString msgXml(const QXmppMessage &m)
@@ -254,7 +273,17 @@ struct Case {
             cn->sock->setSocketDescriptor(fd);
             cp->conns << cn;
             J({ { "ev", "srv_accept" }, { "c", cp->index }, { "conn", cn->connIndex } });
-            QObject::connect(cn->sock, &QSslSocket::readyRead, [cn]() { cn->feed(cn->sock->readAll()); });
+            cn->sock->setSocketOption(QAbstractSocket::LowDelayOption, 1);
+            // the client's small writes are subject to Nagle: acknowledge at once instead of after the delayed-ACK timer (40 ms)
+            auto quickAck = [fd]() {
+                int one = 1;
+                setsockopt(int(fd), IPPROTO_TCP, TCP_QUICKACK, &one, sizeof(one));
+            };
+            quickAck();
+            QObject::connect(cn->sock, &QSslSocket::readyRead, [cn, quickAck]() {
+                quickAck();
+                cn->feed(cn->sock->readAll());
+            });
             QObject::connect(cn->sock, &QSslSocket::disconnected, [cn]() {
                 if (!cn->closed) J({ { "ev", "srv_peer_closed" }, { "c", cn->clientIndex }, { "conn", cn->connIndex } });
                 cn->closed = true;
@@ -275,8 +304,10 @@ struct Case {
     {
         QElapsedTimer t;
         t.start();
+        QTimer wake;
+        wake.start(1);
         while (!done()) {
-            QCoreApplication::processEvents(QEventLoop::AllEvents, 2);
+            QCoreApplication::processEvents(QEventLoop::AllEvents | QEventLoop::WaitForMoreEvents);
             if (t.elapsed() > ms) return false;
         }
         return true;
@@ -299,8 +330,10 @@ struct Case {
         total.start();
         q.start();
         qint64 last = activity();
+        QTimer wake;
+        wake.start(1);
         while (total.elapsed() < maxMs) {
-            QCoreApplication::processEvents(QEventLoop::AllEvents, 1);
+            QCoreApplication::processEvents(QEventLoop::AllEvents | QEventLoop::WaitForMoreEvents);
             QCoreApplication::sendPostedEvents(nullptr, QEvent::DeferredDelete);
             qint64 now = activity();
             if (now != last) {
@@ -312,9 +345,20 @@ struct Case {
         }
     }
 
+    // stanzas the server had counted on the previous connection of the same client (what <resumed h=/> must report)
+    int prevInbound(Conn *cn)
+    {
+        auto &c = *clis[size_t(cn->clientIndex)];
+        return cn->connIndex > 0 ? c.conns[cn->connIndex - 1]->smInbound : 0;
+    }
+
     QString subst(QString s, Conn *cn)
     {
-        if (cn) s.replace(u"$ID"_s, cn->lastId);
+        if (cn) {
+            s.replace(u"$ID"_s, cn->lastId);
+            s.replace(u"$SMIN_PREV"_s, QString::number(prevInbound(cn)));
+            s.replace(u"$SMIN"_s, QString::number(cn->smInbound));
+        }
         for (auto it = vars.begin(); it != vars.end(); ++it) s.replace(u"$"_s + it.key(), it.value());
         return s;
     }
@@ -443,10 +487,13 @@ struct Case {
             auto &c = cli(st);
             if (st.contains("jid") || st.contains("password")) configure(c, st);
             c.config.setPort(c.listener->serverPort());
+            c.expectConn = c.conns.size();
+            c.sigMark = g_seq;
             c.client->connectToServer(c.config);
             return true;
         }
         if (op == u"disconnect") {
+            cli(st).sigMark = g_seq;
             cli(st).client->disconnectFromServer();
             return true;
         }
@@ -468,7 +515,7 @@ struct Case {
             const QByteArray data = subst(st["xml"].toString(), cn).toUtf8();
             J({ { "ev", "srv_tx" }, { "c", c.index }, { "conn", cn->connIndex }, { "xml", QString::fromUtf8(data) }, { "encrypted", cn->encrypted } });
             if (st["restart"].toBool()) cn->resetStream();
-            if (st["smOn"].toBool()) { cn->smOn = true; cn->smInbound = st["smInbound"].toInt(0); }
+            if (st["smOn"].toBool()) { cn->autoAck = !st["manualAck"].toBool(); cn->smOn = true; cn->smInbound = st["smResume"].toBool() ? prevInbound(cn) : st["smInbound"].toInt(0); }
             if (st.contains("chunks")) {
                 // deliver in given chunk sizes with a drain in between
                 int pos = 0;
@@ -488,6 +535,7 @@ struct Case {
             auto &c = cli(st);
             const QString tag = st["tag"].toString();
             const QString child = st["child"].toString();
+            const QJsonObject react = st["react"].toObject();
             QJsonObject found;
             bool ok = spinUntil([&] {
                 auto *cn = c.current();
@@ -497,6 +545,12 @@ struct Case {
                     if ((tag.isEmpty() || o["tag"].toString() == tag) && (child.isEmpty() || o["child"].toString() == child)) {
                         found = o;
                         return true;
+                    }
+                    // elements the script answers in passing while it waits for something else
+                    if (react.contains(o["tag"].toString())) {
+                        const QByteArray data = subst(react[o["tag"].toString()].toString(), cn).toUtf8();
+                        J({ { "ev", "srv_tx" }, { "c", c.index }, { "conn", cn->connIndex }, { "xml", QString::fromUtf8(data) }, { "react", true } });
+                        cn->send(data);
                     }
                 }
                 return cn->closed;
@@ -531,6 +585,7 @@ struct Case {
         }
         if (op == u"cut") {  // server drops the TCP connection
             auto &c = cli(st);
+            c.sigMark = g_seq;
             if (auto *cn = c.current(); cn && !cn->closed) {
                 cn->closed = true;
                 J({ { "ev", "srv_cut" }, { "c", c.index }, { "conn", cn->connIndex }, { "graceful", st["graceful"].toBool() } });
@@ -571,17 +626,28 @@ struct Case {
         if (op == u"wait_signal") {
             auto &c = cli(st);
             const QString name = st["name"].toString();
-            const int from = st["fromSeq"].toInt(0);
+            const int from = st.contains("fromSeq") ? st["fromSeq"].toInt(0) : c.sigMark;
             bool ok = spinUntil([&] {
-                for (int i = g_journal->size() - 1; i >= 0; i--) {
-                    auto o = g_journal->at(i).toObject();
-                    if (o["t"].toInt() < from) break;
-                    if (o["ev"].toString() == u"cli_sig" && o["c"].toInt() == c.index && o["name"].toString() == name) return true;
+                for (auto it = g_signals.rbegin(); it != g_signals.rend(); ++it) {
+                    if (it->t < from) break;
+                    if (it->c == c.index && it->name == name) return true;
                 }
                 return false;
             }, timeout);
             if (!ok) J({ { "ev", "await_failed" }, { "step", idx }, { "tag", u"signal:"_s + name }, { "timeout", true } });
             return ok;
+        }
+        if (op == u"normalize") {
+            // what the library itself makes of a message element parsed on its own
+            QDomDocument d;
+            QJsonObject o { { "ev", "normalized" }, { "tag", st["tag"].toString() } };
+            if (d.setContent(st["xml"].toString().toUtf8(), true)) {
+                QXmppMessage m;
+                m.parse(d.documentElement());
+                o["xml"] = msgXml(m);
+            }
+            J(o);
+            return true;
         }
         if (op == u"mark") {
             J({ { "ev", "mark" }, { "name", st["name"].toString() } });
@@ -852,8 +918,9 @@ int main(int argc, char **argv)
         out["n"] = in["n"];
         printf("BEGIN %d\n", in["n"].toInt());
         fflush(stdout);
-        QJsonArray journal;
+        std::vector<QJsonObject> journal;
         g_journal = &journal;
+        g_signals.clear();
         g_seq = 0;
         int stalledAt = -1;
         {
@@ -864,13 +931,16 @@ int main(int argc, char **argv)
                 auto st = steps[i].toObject();
                 J({ { "ev", "step" }, { "i", i }, { "op", st["op"].toString() } });
                 if (!cs.step(st, i)) {
+                    if (st["optional"].toBool()) continue;
                     stalledAt = i;
-                    if (!st["optional"].toBool() && in["stopOnStall"].toBool(true)) break;
+                    if (in["stopOnStall"].toBool(true)) break;
                 }
             }
             cs.settle(5, 300);
         }
-        out["journal"] = journal;
+        QJsonArray ja;
+        for (auto &o : journal) ja.append(o);
+        out["journal"] = ja;
         out["stalled"] = stalledAt;
         g_journal = nullptr;
         emitJson(out);
